@@ -755,6 +755,9 @@ def case_lifecycle(ctx, c):
         nb = int(p.nbestfndr) if kind == "GB" else None
         A = numpy.asarray(state, dtype=float)
         w = {"kind": kind, "built_by": built, "history": list(history), attr: state, "nbestfndr": nb}
+        if not numpy.all(numpy.isfinite(A)):    # only reachable through a defective from_pgmat_gpmod: judged by the problems family
+            ctx.sumnote("lifecycle: non-finite state handed over by the constructor (not judged here)")
+            return False
         if hap:
             good_all &= ctx.check("C18.state.props", int(p.ploidy) == A.shape[0] and int(p.nlatent) == A.shape[3], defsite(pc, "ploidy"),
                       "ploidy and nlatent are those of the current haplomat", after, witness=dict(w, ploidy=p.ploidy, nlatent=p.nlatent), coords=coords)
